@@ -48,6 +48,9 @@ MNodes(id) == {MNode(id, k, h1, h2, p) : k \in KindsU, h1 \in HashVals, h2 \in H
 \* Family = "export": the merge universe is written out (one projected list per element) so that the harness can run the
 \* real operations on ALL ordered pairs of it
 ASSUME Family = "export" => JsonSerialize(IOEnv.VH_EXPORT, [all |-> UMerge])
+\* Family = "export-extract": every graph on IdsU (all edge sets over one type, dangling targets included, all root sets)
+UExtractAll == {FromViews({NodeVal(id, "") : id \in IdsU}, T, R) : T \in SUBSET (IdsU \X TypesU \X Targets), R \in SUBSET IdsU}
+ASSUME Family = "export-extract" => JsonSerialize(IOEnv.VH_EXPORT, [all |-> UExtractAll])
 Universe == IF Family = "merge" THEN UMerge ELSE IF Family = "extract" THEN UExtract ELSE {EmptyList}
 
 Init == x = EmptyList /\ y = EmptyList /\ z = EmptyList /\ stage = 0
